@@ -82,6 +82,11 @@ Theorem C14_delete_removes : forall pol s now req sec s',
   op_delete pol true s now req sec = (s', R_OK) ->
   has_secret s' sec = false /\ forall g, In g (grants s') -> g_secret g <> sec.
 Proof. exact delete_removes. Qed.
+Theorem C14_revoke_delegation_removes : forall s parent child s',
+  op_revoke_deleg s parent child = (s', R_OK) ->
+  exists rec, In rec (delegs s) /\ d_parent rec = parent /\ d_child rec = child /\
+    forall g, In g (grants s') -> ~ (g_from g = child /\ In (g_secret g) (d_secs rec)).
+Proof. exact revoke_deleg_removes. Qed.
 Theorem C14_expiry_removes : forall s now g t,
   In g (grants (sweep s now)) -> In t (ttls s) -> t_entity t = g_from g -> t_secret t = g_secret g -> now < t_exp t.
 Proof. exact expiry_removes. Qed.
@@ -128,6 +133,7 @@ Print Assumptions C14_membership_alone_gives_nothing.
 Print Assumptions C14_invalid_edges_give_nothing.
 Print Assumptions C14_revoke_removes.
 Print Assumptions C14_delete_removes.
+Print Assumptions C14_revoke_delegation_removes.
 Print Assumptions C14_expiry_removes.
 Print Assumptions C14_lazy_expiry_refuted.
 Print Assumptions C14_source_sweeps_before_checking.
